@@ -20,13 +20,15 @@ size_t ber_end_of_encoding(const Bytes &b);
 // every offset at which a TLV header starts or its contents start (structure-biased cut points)
 void ber_boundaries(const Bytes &b, std::vector<size_t> &out);
 
-struct VariantStats { unsigned indefinite = 0, longform = 0, segmented = 0, alternative = 0; };
+struct VariantStats { unsigned indefinite = 0, longform = 0, segmented = 0, alternative = 0, reordered = 0, unknown_ext = 0; };
 // Contents of the string-typed nodes of the value that was encoded: lets the rewriter segment strings that travel
 // under IMPLICIT (non-universal) tags. A primitive TLV whose contents merely coincide with a string's is segmented too;
 // the resulting encoding is then invalid and is dropped by the callers' one-shot precondition.
 struct BerHints {
     std::set<Bytes> strings, bitstrings;
     std::map<Bytes, std::vector<Bytes>> alt;      // DER contents of a primitive -> alternative BER contents (same abstract value, or a special value)
+    std::set<Bytes> unordered;                    // DER contents of SET / SET OF nodes: members may arrive in any order
+    std::set<Bytes> extensible;                   // DER contents of extensible SEQUENCE / SET nodes: a newer peer may append unknown additions
 };
 void ber_collect_hints(const asn_TYPE_descriptor_t *td, void *st, BerHints &h);
 // seeded BER variant of a DER encoding; returns false if the input could not be parsed
@@ -35,5 +37,8 @@ bool ber_variant(const Bytes &der, Rng &rng, Bytes &out, VariantStats &vs, const
 // XER: strip trailing XML whitespace; cut points around < > &
 void xer_strip_trailing_ws(Bytes &b);
 void xer_boundaries(const Bytes &b, std::vector<size_t> &out);
+// seeded XER variant: whitespace and comments between tags, <x/> for empty elements, character references in text
+struct XerVariantStats { unsigned whitespace = 0, comments = 0, emptytags = 0, charrefs = 0; };
+void xer_variant(const Bytes &xer, Rng &rng, Bytes &out, XerVariantStats &vs);
 
 #endif
